@@ -31,6 +31,7 @@ REPO = os.environ.get('SFV_REPO', '/repo')  # the tree under test (seeded-mutati
 sys.path.insert(0, REPO)  # import static_frame from the working tree
 
 from sfv import lean  # noqa: E402
+from sfv import pins  # noqa: E402
 
 TRUSTED_COMMON = [
     'Lean 4.33.0 kernel; axioms allowed: propext, Classical.choice, Quot.sound (audited per theorem with #print axioms on every run)',
@@ -229,6 +230,36 @@ def main():
         print(f'INFRASTRUCTURE-ERROR {type(ex).__name__}: {ex}')
         return 2
 
+    # ---- 2b. change-directed escalation (sfv/pins.py): the source moved since the models were last validated ------
+    changed = pins.changed_files(REPO)
+    escalation = {'changed_files': changed, 'passes': 0, 'evaluations': 0}
+    esc_budget = pins.ESCALATION_BUDGET_S.get(a.tier, 0)
+    if changed and esc_budget and not [f for f in failures if f.finding not in known]:
+        t_end = time.time() + esc_budget
+        per_pass = ctx.budget_s
+        try:
+            for s in pins.ESCALATION_SEEDS:
+                if time.time() >= t_end:
+                    break
+                ctx2 = Ctx(prop, a.tier, a.seed * 1000 + s)
+                ctx2.budget_s = min(per_pass, t_end - time.time())
+                fs = run_cases(ctx2, mod, mod.cases(ctx2))
+                if hasattr(mod, 'extra') and not ctx2.out_of_time():
+                    fs += mod.extra(ctx2) or []
+                escalation['passes'] += 1
+                escalation['evaluations'] += ctx2.evaluations
+                ctx.evaluations += ctx2.evaluations
+                ctx.distinct |= ctx2.distinct
+                ctx.traces += ctx2.traces
+                failures += fs
+                if [f for f in fs if f.finding not in known]:
+                    break
+        except lean_timeout_errors() as ex:
+            print(f'INFRASTRUCTURE-ERROR {type(ex).__name__}: {ex}')
+            return 2
+        print(f'NOTE: {len(changed)} source file(s) differ from the pinned state ({", ".join(changed[:4])}): '
+              f'{escalation["passes"]} further pass(es) under fresh seeds, {escalation["evaluations"]} more evaluations')
+
     unlisted = [f for f in failures if f.finding not in known]
     listed = [f for f in failures if f.finding in known]
 
@@ -295,6 +326,7 @@ def main():
             # region in which a new violation of the same kind would be read as the old one
             'known_findings_absorbed': dict(sorted(absorbed.items())),
             'built': not a.no_build,
+            'change_directed_escalation': escalation,
             'leanchecker': leanchecker if leanchecker is not None else 'thorough tier only',
         },
         'assumptions': list(getattr(mod, 'ASSUMPTIONS', [])),
